@@ -131,22 +131,49 @@ theorem map_erase_some {a : Option Obj} {b : Obj} (h : a.map Obj.erase = (some b
   | none => simp at h
   | some a' => exact ⟨a', rfl, by simpa using h⟩
 
-/-- a heap that was extended by a copy (`SlotsOk`) and then shrunk by drops (`Shrinks`), and is balanced for the same
-user references as before, is the heap it was -/
-theorem restore_of_frames {h h' h'' : Heap} {U : Nat → Nat} (hb : Bal h U [] [] []) (hb'' : Bal h'' U [] [] [])
-    (hs : SlotsOk h h') (hk : Shrinks h' h'') : h''.objs = h.objs ∧ h''.bufs = h.bufs := by
-  have hnn : h.nobj ≤ h''.nobj := by rw [hk.nobj]; exact hs.nobj
+/-- what any mixture of allocations, grabs, copies, drops and frees can do to the cells that existed before: an old object
+is gone or is what it was up to its reference count, an old buffer is gone or is what it was; ids only grow -/
+structure Frame (h h' : Heap) : Prop where
+  nobj : h.nobj ≤ h'.nobj
+  nbuf : h.nbuf ≤ h'.nbuf
+  objs : ∀ j, j < h.nobj → h'.objs j = none ∨ (h'.objs j).map Obj.erase = (h.objs j).map Obj.erase
+  bufs : ∀ b, b < h.nbuf → h'.bufs b = none ∨ h'.bufs b = h.bufs b
+
+theorem Frame.refl (h : Heap) : Frame h h := ⟨Nat.le_refl _, Nat.le_refl _, fun _ _ => Or.inr rfl, fun _ _ => Or.inr rfl⟩
+
+theorem Frame.trans {h h1 h2 : Heap} (a : Frame h h1) (b : Frame h1 h2) : Frame h h2 := by
+  refine ⟨Nat.le_trans a.nobj b.nobj, Nat.le_trans a.nbuf b.nbuf, ?_, ?_⟩
+  · intro j hj
+    rcases b.objs j (Nat.lt_of_lt_of_le hj a.nobj) with h2n | h2e
+    · exact Or.inl h2n
+    · rcases a.objs j hj with h1n | h1e
+      · left
+        rw [h1n] at h2e
+        cases hv : h2.objs j with
+        | none => rfl
+        | some _ => rw [hv] at h2e; simp at h2e
+      · right; rw [h2e, h1e]
+  · intro bb hbb
+    rcases b.bufs bb (Nat.lt_of_lt_of_le hbb a.nbuf) with h2n | h2e
+    · exact Or.inl h2n
+    · rcases a.bufs bb hbb with h1n | h1e
+      · left; rw [h2e, h1n]
+      · right; rw [h2e, h1e]
+
+theorem Frame.of_shrinks {h h' : Heap} (hk : Shrinks h h') : Frame h h' :=
+  ⟨Nat.le_of_eq hk.nobj.symm, Nat.le_of_eq hk.nbuf.symm, fun j _ => hk.objs j, fun b _ => hk.bufs b⟩
+
+theorem Frame.of_slotsOk {h h' : Heap} (hs : SlotsOk h h') : Frame h h' :=
+  ⟨hs.nobj, hs.nbuf, fun j hj => Or.inr (hs.objsOld j hj), fun b hb => Or.inr (hs.bufsOld b hb)⟩
+
+/-- a heap reached through allocations, grabs, copies, drops and frees (`Frame`) that is balanced for the same user
+references as before is the heap it was -/
+theorem restore_of_frame {h h'' : Heap} {U : Nat → Nat} (hb : Bal h U [] [] []) (hb'' : Bal h'' U [] [] [])
+    (hf : Frame h h'') : h''.objs = h.objs ∧ h''.bufs = h.bufs := by
+  have hnn : h.nobj ≤ h''.nobj := hf.nobj
   -- (0) old cells: gone, or as they were up to the reference count
-  have fr : ∀ j, j < h.nobj → h''.objs j = none ∨ (h''.objs j).map Obj.erase = (h.objs j).map Obj.erase := by
-    intro j hj
-    rcases hk.objs j with h1 | h1
-    · exact Or.inl h1
-    · right; rw [h1, hs.objsOld j hj]
-  have frb : ∀ b, b < h.nbuf → h''.bufs b = none ∨ h''.bufs b = h.bufs b := by
-    intro b hbl
-    rcases hk.bufs b with h1 | h1
-    · exact Or.inl h1
-    · right; rw [h1, hs.bufsOld b hbl]
+  have fr : ∀ j, j < h.nobj → h''.objs j = none ∨ (h''.objs j).map Obj.erase = (h.objs j).map Obj.erase := hf.objs
+  have frb : ∀ b, b < h.nbuf → h''.bufs b = none ∨ h''.bufs b = h.bufs b := hf.bufs
   have hdeadU : ∀ z, h.nobj ≤ z → U z = 0 := by
     intro z hz
     have : h.objs z = none := by
@@ -286,5 +313,11 @@ theorem restore_of_frames {h h' h'' : Heap} {U : Nat → Nat} (hb : Bal h U [] [
       rcases frb b hbn with hn | he
       · rw [hn] at hlive''; cases hlive''
       · rw [he, hv]
+
+/-- a heap that was extended by a copy (`SlotsOk`) and then shrunk by drops (`Shrinks`), and is balanced for the same
+user references as before, is the heap it was -/
+theorem restore_of_frames {h h' h'' : Heap} {U : Nat → Nat} (hb : Bal h U [] [] []) (hb'' : Bal h'' U [] [] [])
+    (hs : SlotsOk h h') (hk : Shrinks h' h'') : h''.objs = h.objs ∧ h''.bufs = h.bufs :=
+  restore_of_frame hb hb'' ((Frame.of_slotsOk hs).trans (Frame.of_shrinks hk))
 
 end Sqfs.Obj
